@@ -1,25 +1,109 @@
-"""C11 — full-stack check (see stackprops.py / stackcommon.py)."""
-from . import stackprops as sp, stackcommon as sc
+"""C11 — read, write and event permissions are enforced for remote peers (API level for every catalog
+constructor and custom permission sets; HTTP level on the full stack)."""
+import json
+from .. import core
+from . import stackprops as sp, stackcommon as sc, c12
 
 ID = "C11"
-FAMILY = "stack"
-RETRY = 2
-RULE = 'verified controllers write to characteristics without write permission (read-only, read+event), read write-only ones, subscribe to characteristics without event permission (rw, r, w) and then change them locally; GET, /accessories, callbacks and events observed. non-trivial = all'
-ASSUMPTIONS = ["symbolic cryptography in the model (forging is impossible by construction of the message alphabet: INT-CTXT of ChaCha20-Poly1305, EUF-CMA of Ed25519, SRP-6a soundness, CDH on Curve25519, HKDF as a random oracle are assumed, not proved); net/http request parsing is modelled as 400-and-close for ciphertext on a plaintext connection; the reference controller's abstract message kinds are realised by concrete builders in harness/cmd/hcdrv/stack.go"]
-TRUSTED = ["reference controller harness/cmd/hcdrv/refctl.go (math/big SRP with the RFC 3526 prime re-derived from pi, crypto/ed25519, x/crypto curve25519 / chacha20poly1305 / hkdf)", "scenario translation ocaml/fam_stack.ml and canonicalisation tools/vlib/props/stackcommon.py"]
+RULE = ("API level: every characteristic constructor of the catalog (about 170, with their real permissions, bounds and "
+        "updateOnSameValue flag) and synthetic characteristics with all 8 permission subsets x sequences of remote writes, "
+        "local updates and getter refreshes with values of every JSON kind, including the currently stored value; "
+        "HTTP level: " + "verified controllers write to characteristics without write permission, read write-only ones, subscribe "
+        "to characteristics without event permission and then change them locally. non-trivial = a remote write to a "
+        "characteristic without write permission, or any operation on one without read permission")
 EXTRA_FILES = ("Proofs/HapProofs.v", "Proofs/CharacProofs.v")
-gen = sp.gen_c11
-oracle = sp.oracle_c11
-same = sc.same
+ASSUMPTIONS = ["see C12 for the conversion oracles; see C01 for the symbolic cryptography of the full-stack part"]
+TRUSTED = ["reference controller, scenario translation and canonicalisation as for C01"]
 
 
-def nontrivial(c):
-    return len(c["line"].split(" ")) > 6
+class Api:
+    """implementation-side oracle for the API-level cases"""
+    @staticmethod
+    def nontrivial(c):
+        t = c["line"].split(" ")
+        t = t[1:] if t[0] == "cc" else t
+        return "w" not in t[2] or "r" not in t[2]
+
+    @staticmethod
+    def outcome_class(c, obs):
+        return "api/" + c["kind"].split("/")[0]
+
+    @staticmethod
+    def oracle(c, obs):
+        if obs.startswith("DRIVER-DIED") or obs == "NO-OUTPUT":
+            return "driver failure " + obs[:80]
+        t = c["line"].split(" ")
+        t = t[1:] if t[0] == "cc" else t
+        perms, init, ops = t[2], t[5], t[6:]
+        head, _, tail = obs.partition(" cbs=")
+        vals = head.split(" ")
+        cbs = tail.split(" ")[0].split(",") if tail.split(" ")[0] else []
+        prev = init.split(":")[0] + ":" + init.split(":")[1] if init != "nil" else "nil"
+        prev = vals[0] if False else None
+        cur = None
+        nremote_cb = sum(1 for x in cbs if x.startswith("R"))
+        if "w" not in perms:
+            # no callback may stem from a remote WRITE (R ops); getter refreshes (GR) are not writes
+            rconns = [op.split(":")[1] for op in ops if op.startswith("R:")]
+            grconns = [op.split(":")[1] for op in ops if op.startswith("GR:")]
+            if nremote_cb > len(grconns):
+                return "remote-update callbacks (%s) were invoked although the characteristic has no write permission" % ",".join(cbs)[:120]
+            last = init
+            for i, v in enumerate(vals):
+                if v == "panic":
+                    break
+                if i < len(ops) and ops[i].startswith("R:") and _norm(v) != _norm(last):
+                    return "remote write #%d (%s) changed the value of a characteristic without write permission: %s -> %s" % (i, ops[i][:50], last[:40], v[:40])
+                last = v
+        if "r" not in perms:
+            for i, v in enumerate(vals):
+                if v not in ("nil", "panic"):
+                    return "a characteristic without read permission stores a value after update #%d: %s" % (i, v[:40])
+        return None
+
+    same = staticmethod(lambda c, g, m: g == m)
 
 
-def outcome_class(c, obs):
-    return c["kind"]
+def _norm(v):
+    p = v.split(":")
+    return ":".join(p[:2]) if p[0] in ("f", "s", "i", "b") and len(p) >= 2 else v
 
 
-def classify(c, obs, why):
-    return None
+def gen_api(rng, tier):
+    cases = c12.gen_ctor_cases(rng, 4 if tier == "quick" else 80)
+    for f in c12.FORMATS:
+        for perms in ["r", "w", "e", "rw", "re", "we", "rwe", "-"]:
+            for _ in range(2 if tier == "quick" else 30):
+                init = "nil"
+                if "r" in perms:
+                    init = {"float": "f:%016x" % c12.fbits(1.0), "bool": "b:0"}.get(f, "i:1" if f in ("uint8", "uint16", "uint32", "int32", "uint64") else "s:" + b"x".hex())
+                ops = []
+                for _ in range(rng.randrange(1, 6)):
+                    k = rng.random()
+                    v = c12.gen_val(rng, False)
+                    ops.append(("R:%d:%s" % (rng.randrange(1, 3), v)) if k < 0.6 else ("L:" + v if k < 0.9 else "GR:1:" + v))
+                cases.append({"id": "cs%d" % len(cases), "kind": "custom/" + f, "line": "ch %s %s - - %s %s" % (f, perms.replace("-", "x"), init, " ".join(ops))})
+    return cases
+
+
+class Http:
+    oracle = staticmethod(sp.oracle_c11)
+    same = staticmethod(sc.same)
+    nontrivial = staticmethod(lambda c: True)
+    outcome_class = staticmethod(lambda c, obs: "http")
+    RETRY = 2
+
+
+def run(res, a):
+    res.rule = RULE
+    res.assumptions = ASSUMPTIONS
+    core.build_everything(res, ID, extra_files=EXTRA_FILES)
+    res.trusted += TRUSTED
+    rng = core.rng_for(ID, res.seed)
+    if a.replay:
+        rep = json.load(open(a.replay))
+        fam = rep.get("family", "stack")
+        core.run_correspondence(res, fam, [{"id": "replay", "line": rep["case"], "kind": "replay/x", "meta": {}}], Api if fam == "charac" else Http)
+        return
+    core.run_correspondence(res, "charac", gen_api(rng, a.tier), Api, corr_name="correspondence model<->code, family charac (API level, every catalog constructor)")
+    core.run_correspondence(res, "stack", sp.gen_c11(rng, a.tier), Http)
